@@ -1345,3 +1345,19 @@ silent('refactor-expand-match-helper', ['C04', 'C05', 'C14'],
             return False
         try:
             # Try to interpret self.kind as a literal""")])
+
+# ------------------------------------------------- rounds 10 / 11: new rules
+fire('c15-memoised-parser', 'C15',
+     [(P, "def _parse_text_rule(rule):", "@functools.lru_cache(maxsize=None)\ndef _parse_text_rule(rule):"),
+      (P, "import logging\n", "import functools\nimport logging\n")], 'C15.FRESH')
+fire('c20-cache-stamp-before-data', 'C20',
+     [(CH, "            raise cfg.ConfigFilesNotFoundError((filename,))\n        cache_info['mtime'] = mtime\n", "            raise cfg.ConfigFilesNotFoundError((filename,))\n"),
+      (CH, "        LOG.debug(\"Reloading cached file %s\", filename)\n", "        LOG.debug(\"Reloading cached file %s\", filename)\n        cache_info['mtime'] = mtime\n")], 'C20.CACHE-ORDER')
+fire('c16-option-ignore-case', 'C16',
+     [(OPTS, "               default='application/x-www-form-urlencoded',\n", "               default='application/x-www-form-urlencoded',\n               ignore_case=True,\n")], 'C16.PAYLOAD')
+fire('c19-roles-lowered', 'C19',
+     [(SH, "[role['name'] for role in access_data['roles']]", "[role['name'].lower() for role in access_data['roles']]")], 'C19.CREDS')
+fire('c10-removal-default-not-merged', 'C10',
+     [(POL, "                    self._emit_deprecated_for_removal_warning(default)\n\n                if default.name in self.rules:\n                    continue\n", "                    self._emit_deprecated_for_removal_warning(default)\n                    continue\n\n                if default.name in self.rules:\n                    continue\n")], 'C10.DEFAULTS')
+silent('c19-roles-renamed-loop-var', 'C19',
+       [(SH, "[role['name'] for role in access_data['roles']]", "[r['name'] for r in access_data['roles']]")])
